@@ -79,6 +79,12 @@ MUTANTS = [
      "    (ctx.output_path / VERSION_INDEX_NAME).unlink(missing_ok=True)\n", "    pass\n", ["C06"]),
     ("revert-D23-staging-name", "config.py",
      'ARCHIVE_STAGING = ".archive-tmp"\n', 'ARCHIVE_STAGING = "archive-tmp"\n', ["C08", "C12", "C11"]),
+    ("revert-D24-tar-absolute", "cli/restore.py",
+     'str(archive_file.absolute())', 'str(archive_file)', ["C17"]),
+    ("revert-D25-tee-stream-failure", "utils/tee.py",
+     "                except (OSError, ValueError):\n                    stream_ok = False\n", "                except ZeroDivisionError:\n                    stream_ok = False\n", ["C10"]),
+    ("revert-D26-json-after-check", "execution/ops/run_task_executable.py",
+     "        if self._serialize_args_options:\n", "        if self._serialize_args_options and handle.returncode == 0:\n", ["C10", "C06", "C08"]),
     ("loader-no-dup-check", "parsing/task_index.py",
      "                    if dep_identifier in task_deps_set:\n", "                    if dep_identifier in task_deps_set and len(task_deps) > 2:\n", ["C14"]),
 ]
